@@ -27,7 +27,10 @@ def specs(ctx):
             for H in range(1, 4):
                 s.append((W, H, 5, 5))
         s += [(6, 6, 1, 3), (6, 4, 1, 3), (4, 6, 1, 3), (5, 4, 4, 4),
-              (4, 5, 4, 4), (7, 3, 1, 3), (3, 7, 1, 3), (8, 8, 1, 2)]
+              (4, 5, 4, 4), (7, 3, 1, 3), (3, 7, 1, 3), (8, 8, 1, 2),
+              (4, 3, 5, 5), (3, 4, 5, 5), (4, 4, 5, 5), (5, 3, 5, 5),
+              (3, 5, 5, 5), (5, 4, 5, 5), (4, 5, 5, 5), (2, 2, 6, 6),
+              (3, 2, 6, 6), (2, 3, 6, 6)]
     return s
 
 
